@@ -18,7 +18,11 @@ func H_C11_MergeFaults() {
 	var all [][]vRec
 	total := 0
 	for t := 0; t < nT; t++ {
-		tb, recs := vMakeTableSym(t, 2)
+		maxRecs := 2
+		if t == 2 {
+			maxRecs = 1 // thorough: a third input of at most one record (three inputs of two are out of reach)
+		}
+		tb, recs := vMakeTableSym(t, maxRecs)
 		tabs = append(tabs, tb)
 		all = append(all, recs)
 		total += len(recs)
